@@ -245,14 +245,14 @@ namespace glm
 	template<typename T, qualifier Q>
 	GLM_FUNC_QUALIFIER GLM_CONSTEXPR mat<4, 4, T, Q>::mat(mat<4, 2, T, Q> const& m)
 #		if GLM_HAS_INITIALIZER_LISTS
-			: value{col_type(m[0], 0, 0), col_type(m[1], 0, 0), col_type(0, 0, 1, 0), col_type(0, 0, 0, 1)}
+			: value{col_type(m[0], 0, 0), col_type(m[1], 0, 0), col_type(m[2], 1, 0), col_type(m[3], 0, 1)}
 #		endif
 	{
 #		if !GLM_HAS_INITIALIZER_LISTS
 			this->value[0] = col_type(m[0], 0, 0);
 			this->value[1] = col_type(m[1], 0, 0);
-			this->value[2] = col_type(0, 0, 1, 0);
-			this->value[3] = col_type(0, 0, 0, 1);
+			this->value[2] = col_type(m[2], 1, 0);
+			this->value[3] = col_type(m[3], 0, 1);
 #		endif
 	}
 
